@@ -408,14 +408,23 @@ def capture_origin(run, body, cap_name):
     if cap_name not in names:
         return None
     idx = names.index(cap_name)
+    home = run.facts.enclosing_fn(body)
+    spliced_into = {a for (a, h) in getattr(run.facts, "inlined", []) if h == home}
+    found = []
     for pb in run.facts.all_bodies():
-        if not (body.def_.startswith(pb.def_) or pb.def_.startswith(run.facts.enclosing_fn(body))):
+        lexical = body.def_.startswith(pb.def_) or pb.def_.startswith(home)
+        if not (lexical or pb.def_ in spliced_into):
             continue
         for bi, si, st in pb.stmt_points():
-            if st["k"] == "assign" and st["rv"].get("agg") in ("closure", "coroutine") and st["rv"].get("def") == body.def_:
+            if st["k"] == "assign" and st["rv"].get("agg") in ("closure", "coroutine") and st["rv"].get("def") == body.def_ and bi in pb.live_blocks():
                 e = pb.rvalue_expr(st["rv"])
                 if idx < len(e[2]):
-                    return pb, e[2][idx]
+                    found.append((0 if pb.def_ in spliced_into else 1, pb, e[2][idx]))
+    if found:
+        # the copy of the construction site spliced into an anchor sees what the anchor passed in (the helper's own parameters are
+        # opaque in the helper itself)
+        found.sort(key=lambda x: x[0])
+        return found[0][1], found[0][2]
     return None
 
 
